@@ -55,12 +55,19 @@ macro_rules! ref_int_impl {
                 return RefInt::Empty(i);
             }
             let limit = if neg { max_neg } else { max_pos };
+            let after_sign = i;
             let mut v: $w = 0;
             while i < s.len() {
                 let d = match digit(s[i], radix) {
                     Some(d) => d as $w,
                     None => {
                         if partial {
+                            // "Empty when no digit follows the optional sign": a consumed sign
+                            // without digits is not a number (without a sign the partial parser
+                            // reports zero bytes consumed).
+                            if i == after_sign && after_sign != 0 {
+                                return RefInt::Empty(i);
+                            }
                             return RefInt::Ok(neg && v != 0, v, i);
                         }
                         return RefInt::InvalidDigit(i);
@@ -439,4 +446,171 @@ pub fn ref_float(s: &[u8], g: &Gram, partial: bool) -> RefFloat {
         },
         ok => ok,
     }
+}
+
+// ---------------------------------------------------------------------------
+// Digit separators (C13): the documented grammar of docs/DigitSeparators.md.
+
+#[derive(Clone, Copy)]
+pub struct SepFlags {
+    pub internal: bool,
+    pub leading: bool,
+    pub trailing: bool,
+    pub consecutive: bool,
+}
+
+/// Classify every separator run of one component `s[a..b)` (bytes are digits or separators).
+/// Returns (all runs allowed by the flags, component contains a digit, number of separators).
+fn sep_component(s: &[u8], a: usize, b: usize, sep: u8, fl: SepFlags) -> (bool, bool, usize) {
+    let mut ok = true;
+    let mut has_digit = false;
+    let mut nsep = 0usize;
+    let mut i = a;
+    while i < b {
+        if s[i] != sep {
+            has_digit = true;
+            i += 1;
+            continue;
+        }
+        let start = i;
+        while i < b && s[i] == sep {
+            i += 1;
+        }
+        let run = i - start;
+        nsep += run;
+        let leading = start == a;
+        let trailing = i == b;
+        let allowed = if leading || trailing {
+            (leading && fl.leading) || (trailing && fl.trailing)
+        } else {
+            fl.internal
+        };
+        if !allowed || (run > 1 && !fl.consecutive) {
+            ok = false;
+        }
+    }
+    (ok, has_digit, nsep)
+}
+
+/// Scan `s` as [sign] INT [. FRAC] [e [sign] EXP] where the three components are maximal runs
+/// of decimal digits and separators. Returns (every separator stands in an enabled position
+/// inside a component, every component holding a separator also holds a digit).
+pub fn sep_positions_ok(s: &[u8], sep: u8, int_f: SepFlags, frac_f: SepFlags, exp_f: SepFlags) -> (bool, bool) {
+    let is_ds = |c: u8| (c >= b'0' && c <= b'9') || c == sep;
+    let mut total = 0usize;
+    let mut k = 0;
+    while k < s.len() {
+        if s[k] == sep {
+            total += 1;
+        }
+        k += 1;
+    }
+    let mut i = 0usize;
+    if i < s.len() && (s[i] == b'+' || s[i] == b'-') {
+        i += 1;
+    }
+    let a = i;
+    while i < s.len() && is_ds(s[i]) {
+        i += 1;
+    }
+    let (mut ok, mut digits_ok, mut seen) = {
+        let (o, d, n) = sep_component(s, a, i, sep, int_f);
+        (o, d || n == 0, n)
+    };
+    if i < s.len() && s[i] == b'.' {
+        i += 1;
+        let a = i;
+        while i < s.len() && is_ds(s[i]) {
+            i += 1;
+        }
+        let (o, d, n) = sep_component(s, a, i, sep, frac_f);
+        ok = ok && o;
+        digits_ok = digits_ok && (d || n == 0);
+        seen += n;
+    }
+    if i < s.len() && (s[i] == b'e' || s[i] == b'E') {
+        i += 1;
+        if i < s.len() && (s[i] == b'+' || s[i] == b'-') {
+            i += 1;
+        }
+        let a = i;
+        while i < s.len() && is_ds(s[i]) {
+            i += 1;
+        }
+        let (o, d, n) = sep_component(s, a, i, sep, exp_f);
+        ok = ok && o;
+        digits_ok = digits_ok && (d || n == 0);
+        seen += n;
+    }
+    (ok && seen == total, digits_ok)
+}
+
+// ---------------------------------------------------------------------------
+// Integer grammar with syntax flags (C12), separator-free.
+#[derive(Clone, Copy)]
+pub struct IntGram {
+    pub radix: u32,
+    pub no_positive_sign: bool,
+    pub required_sign: bool,
+    pub no_leading_zeros: bool,
+    pub prefix: u8, // 0 = none
+    pub suffix: u8,
+    pub case_sensitive_prefix: bool,
+    pub case_sensitive_suffix: bool,
+}
+
+fn eq_cased(a: u8, b: u8, cased: bool) -> bool {
+    if cased {
+        a == b
+    } else {
+        lower(a) == lower(b)
+    }
+}
+
+/// Documented grammar: [sign] [0 prefix] digits [suffix]; returns Some((negative, magnitude))
+/// when the whole input is derived (value wraps are excluded by the callers' bounds).
+pub fn ref_int_flags(s: &[u8], g: &IntGram, signed: bool) -> Option<(bool, u64)> {
+    let mut i = 0usize;
+    let mut neg = false;
+    if i < s.len() && s[i] == b'+' {
+        if g.no_positive_sign {
+            return None;
+        }
+        i += 1;
+    } else if i < s.len() && s[i] == b'-' && signed {
+        neg = true;
+        i += 1;
+    } else if g.required_sign {
+        return None;
+    }
+    let mut had_prefix = false;
+    if g.prefix != 0 && i + 1 < s.len() && s[i] == b'0' && eq_cased(s[i + 1], g.prefix, g.case_sensitive_prefix) {
+        i += 2;
+        had_prefix = true;
+    }
+    let start = i;
+    let mut v: u64 = 0;
+    while i < s.len() {
+        match digit(s[i], g.radix) {
+            Some(d) => {
+                v = v * g.radix as u64 + d as u64;
+                i += 1;
+            },
+            None => break,
+        }
+    }
+    let nd = i - start;
+    if nd == 0 {
+        return None;
+    }
+    if g.no_leading_zeros && !had_prefix && nd > 1 && s[start] == b'0' {
+        return None;
+    }
+    if g.suffix != 0 && i < s.len() && eq_cased(s[i], g.suffix, g.case_sensitive_suffix) {
+        i += 1;
+    }
+    if i != s.len() {
+        return None;
+    }
+    Some((neg && v != 0, v))
 }
